@@ -72,7 +72,26 @@ M1 ==
           /\ tgt = v4 @@ [parts |-> [craw |-> [policies |-> rawpol, groups |-> NoFn, services |-> NoFn],
                                      merged |-> [policies |-> mpol, groups |-> gm, services |-> v4.services]]]
 
-Init == CASE Fam = "M1" -> M1 [] Fam = "N3" -> N3 [] Fam = "N1" -> N1 [] Fam = "N2" -> N2
+(* M2: the same merge on a manager that already holds Netspoc policies (rules of both parts under *)
+(* other ids, groups with other members): the incremental requests must arrive at the union       *)
+M2 ==
+  \E A \in SubsetsUpTo(Bodies("g0", "g1"), 2), D \in SubsetsUpTo(Bodies("g0", "g1") \cup {x.r : x \in RawV1}, 2),
+     r1 \in SUBSET RawV1, r2 \in SUBSET RawV2, dg \in {{"10.1.1.10", "10.1.1.20"}, {"10.1.1.10"}}, dv2 \in BOOLEAN :
+    /\ r1 \cup r2 # {}
+    /\ LET gm == [n \in {"Netspoc-" \o x : x \in UsedG(A, {"g0", "g1"})} |-> {"10.1.1.10", "10.1.1.20"}]
+           dgm == [n \in {"Netspoc-" \o x : x \in UsedG(D, {"g0", "g1"})} |-> dg]
+           v4 == Cfg(A, gm, FALSE)
+           d0 == Cfg(D, dgm, FALSE)
+           d  == IF dv2 THEN [d0 EXCEPT !.policies = @ @@ [p \in {"Netspoc-v2"} |-> [k \in {"old1"} |-> R(20, "DROP", "IN", "10.9.9.7", "ANY", "ANY")]]] ELSE d0
+           rawpol == [p \in (IF r1 # {} THEN {"Netspoc-v1"} ELSE {}) \cup (IF r2 # {} THEN {"Netspoc-v2"} ELSE {}) |->
+                        IF p = "Netspoc-v1" THEN FnOf(r1) ELSE FnOf(r2)]
+           mpol == [p \in {"Netspoc-v1"} \cup DOMAIN rawpol |->
+                      IF p = "Netspoc-v1" THEN (IF r1 # {} THEN v4.policies[p] @@ FnOf(r1) ELSE v4.policies[p]) ELSE FnOf(r2)]
+       IN /\ dev = d
+          /\ tgt = v4 @@ [parts |-> [craw |-> [policies |-> rawpol, groups |-> NoFn, services |-> NoFn],
+                                     merged |-> [policies |-> mpol, groups |-> gm, services |-> v4.services]]]
+
+Init == CASE Fam = "M2" -> M2 [] Fam = "M1" -> M1 [] Fam = "N3" -> N3 [] Fam = "N1" -> N1 [] Fam = "N2" -> N2
 Next == UNCHANGED <<dev, tgt>>
 HasTie == \E g, h \in DOMAIN dev.groups : g # h /\ dev.groups[g] = dev.groups[h]
 Out == PrintT(<<"VOUT", ToJson([fam |-> Fam, dev |-> dev, tgt |-> tgt, tie |-> HasTie])>>)
